@@ -28,8 +28,8 @@ def _case(check: Check, case, record=False):
         f1, f2 = mc.cat_frame(), mc.cat_frame(a_rows=list(reversed(mc.A_ROWS)))
         f1["z"] = numpy.arange(n, dtype=float) + 0.5
         f2["z"] = [numpy.nan if k in cc.Z_NULLS_D2 else 10.0 + k for k in range(n)]
-        d1 = (f1, {"a": sym_vector("a", n), "b": sym_vector("b", n), "x 1": sym_vector("x", n)})
-        d2 = (f2, {"a": sym_vector("c", n), "b": sym_vector("d", n), "x 1": sym_vector("y", n)})
+        d1 = (f1, {"a": sym_vector("a", n), "b": sym_vector("b", n), "x 1": sym_vector("x", n), "x_1": sym_vector("u", n)})
+        d2 = (f2, {"a": sym_vector("c", n), "b": sym_vector("d", n), "x 1": sym_vector("y", n), "x_1": sym_vector("v", n)})
         import pandas
 
         f3 = pandas.DataFrame({"a": pandas.Categorical(["p", "q", "r", "p", "q", "r", "p"]), "B": f1["B"], "z": f1["z"]})
